@@ -77,6 +77,17 @@ class AsyncQueue[Element](AsyncIterator[Element]):
             # wait for the result
             return await self._waiting
 
+        except CancelledError:
+            # put back an element handed over to the consumer cancelled before receiving it
+            if (
+                self._waiting.done()
+                and not self._waiting.cancelled()
+                and self._waiting.exception() is None
+            ):
+                self._queue.appendleft(self._waiting.result())
+
+            raise
+
         finally:
             # cleanup
             self._waiting = None
